@@ -53,6 +53,10 @@ func getSyslTypeName(item Type) string {
 
 	switch t := item.(type) {
 	case *Array:
+		// an array that is a type of its own (a definition, or generated for an inner array) is named, not spelled out
+		if inner, ok := t.Items.(*Array); ok && inner.name != "" {
+			return "sequence of " + inner.name
+		}
 		return "sequence of " + getSyslTypeName(t.Items)
 	case *Enum, *Alias, *Union:
 		return item.Name()
